@@ -40,6 +40,12 @@ def main():
                         f1 = (r.get("build") or "") + ": " + r["first"]
                         first = (f1[:110] + "...") if len(f1) > 110 else f1
                         break
+        rr = d.get("rerun") or []
+        if rr:
+            last = {}
+            for r in rr:
+                last[r["check"]] = r
+            ran = (ran + "; " if ran else "") + "applied to /repo: " + ", ".join("%s:%s" % (c, "caught" if r["exit"] == 1 else ("missed" if r["exit"] == 0 else "machinery")) for c, r in sorted(last.items()))
         rows.append("| %s | %s | %s | %s | %s | `%s` |" % (name, d.get("property"), "yes" if d.get("confirmed") else "no", summ, ran, first.replace("|", "/")))
     table = [MARK, "", "| seeded change | breaks | confirmed (tests pass, demo discriminates) | what it is | checks run -> result | first counterexample reported |",
              "|---|---|---|---|---|---|"] + rows + [""]
